@@ -31,5 +31,8 @@ Definition run_dwt (c:case) : list Z :=
   | 17 => SWTForward ZOps (Z.to_nat (geti ip 1)) (x 0%nat) (L 0%nat) (f 0%nat) (f 1%nat) (L 2%nat) (f 2%nat) (f 3%nat) (geti ip 0)
   | 18 => one_l (afb2d ZOps (x 0%nat) (L 0%nat) (f 0%nat) (f 1%nat) (L 2%nat) (f 2%nat) (f 3%nat) (geti ip 0))
   | 19 => one_l (sfb2d ZOps (x 0%nat) (x 1%nat) (x 2%nat) (x 3%nat) (L 0%nat) (f 0%nat) (f 1%nat) (L 2%nat) (f 2%nat) (f 3%nat) (geti ip 0))
+  (* non-separable: filters 0,1 = column pair, 2,3 = row pair, as passed (not reversed) *)
+  | 20 => one_l (afb2d_nonsep ZOps (x 0%nat) (L 0%nat) (f 0%nat) (f 1%nat) (L 2%nat) (f 2%nat) (f 3%nat) (geti ip 0))
+  | 21 => one_l (sfb2d_nonsep ZOps (x 0%nat) (L 0%nat) (f 0%nat) (f 1%nat) (L 2%nat) (f 2%nat) (f 3%nat) (geti ip 0))
   | _ => Err 99
   end.
